@@ -292,7 +292,7 @@ def run(ctx, replay):
             raise vlib.Infra("cannot read the replay file %s: %r" % (replay, e))
     else:
         sizes = {
-            "milter": dict(maxrcpt=2, full="TRUE" if thorough else "FALSE", randn=50000 if thorough else 1500),
+            "milter": dict(maxrcpt=2, full="TRUE" if thorough else "FALSE", randn=32000 if thorough else 1500),
             "rspamd": dict(full="TRUE" if thorough else "FALSE", randn=20000 if thorough else 800),
         }
 
